@@ -215,6 +215,10 @@ def check(run, prefix="O7"):
             pv = b.provenance(b.operand_term(c.args[1]))
             fs = set(n for (ow, n) in pv["fields"] if ow.endswith("FinalizationEvent"))
             table.setdefault(c.name.rsplit("::", 1)[-1], set()).update(fs)
+        for c in b.calls_to([PRT + "::mark_notar_fallback", PRT + "::mark_skipped"]):
+            extra = D.extra_guards(prog, b, c.bb, [lambda a: a[0] in ("is_some", "variant") and K.mentions_field(a[1][0], "finalized", "FinalizationEvent")])
+            o.check(not extra, "ParentReadyTracker::handle_finalization|%s|unconditional|%s" % (c.name.rsplit("::", 1)[-1], "+".join(sorted(set(n for (ow, n) in b.provenance(b.operand_term(c.args[1]))["fields"] if ow.endswith("FinalizationEvent"))))),
+                    "every block / slot of the event is marked (no further condition)", c.span, {"extra": G.atoms_show(extra)})
         o.check(table.get("mark_notar_fallback") == {"finalized", "implicitly_finalized"} and table.get("mark_skipped") == {"implicitly_skipped"},
                 "ParentReadyTracker::handle_finalization|table", "finalized & implicitly finalized blocks -> mark_notar_fallback; implicitly skipped slots -> mark_skipped", b.span,
                 {"table": {k: sorted(v) for k, v in table.items()}})
